@@ -14,7 +14,7 @@ META = {
                    '(I) __hocur_extract_matrix for nested row/column multi-index lists (first / middle / last position, every list shape that the sweeps produce) '
                    'equals the corresponding entries of the dense transformed tensor; (I, rational) hocur end to end with the data-dependent pivot searches '
                    '(pivoted QR, max-volume) replaced by ARBITRARY admissible selections and np.linalg.inv by the exact adjugate inverse: with ranks >= true ranks '
-                   'the returned train reproduces the tensor wherever the intersection matrices are invertible. int_data: data matrices of integer dtype give the same tensors and single cores as their float copies. Concrete replays of hocur_exact run the unmodified hocur (own pivot searches, real LAPACK) with ranks >= the true ranks against the dense tensor.',
+                   'the returned train reproduces the tensor wherever the intersection matrices are invertible. int_data: data matrices of integer dtype give the same tensors and single cores as their float copies. Concrete replays of hocur_exact run the unmodified hocur (own pivot searches, real LAPACK) with ranks >= the true ranks against the dense tensor. NOT solver-decided, sampled by the validation run (scenario hocur_sizes): the unmodified hocur with ranks >= the true ranks on basis lists of unequal size ([4,2,3], [2,4,3], [4,3,4,3]).',
     'bounds': {'quick': 'state dimension 1-3, snapshots 1-3, 1-3 modes with 1-3 functions from {Constant, Identity, Monomial, Sin, Cos, Gauss}; HOCUR end to end: '
                         '2 modes x 2 functions, 2 snapshots, ranks 2, two pivot selections', 'thorough': 'more family mixtures, 3 snapshots in HOCUR extraction'},
     'outside': ['HOCUR pivot selection itself (pivoted QR / max-volume iteration are data-dependent control through LAPACK)', 'rounding'],
